@@ -58,15 +58,9 @@ pub fn next_solution_append<'a>(bip: BuiltInPredicate,
                 Unifiable::SFunction{name: _, terms: _} |
                 Unifiable::SComplex(_) => { out_terms.push(t); },
                 Unifiable::SLinkedList{term: _, next: _, count: _, tail_var: _} => {
-                    let mut list = t;
-                    loop {
-                        if let Unifiable::SLinkedList{term, next,
-                                          count: _, tail_var: _} = list {
-                            if *term == Unifiable::Nil { break; }
-                            out_terms.push(*term);
-                            list = *next;
-                        }
-                    }
+                    // Get the terms of the list, including the terms of
+                    // the list which a tail variable is bound to.
+                    out_terms.append(&mut get_terms(&t, ss));
                 },
                 // LogicVar was dealt with above.
                 Unifiable::LogicVar{id: _, name: _} => {},
